@@ -7,7 +7,7 @@
    created by the latest underlying OpenDB(name).  Histories are by-name: Close/Drop go to the
    handle most recently returned for the name. *)
 From Coq Require Import NArith List Bool.
-From LV Require Import model.CachedProducer spec.CachedProducerSpec proofs.CachedProducerProofs proofs.CachedProducerOnce.
+From LV Require Import model.CachedProducer spec.CachedProducerSpec proofs.CachedProducerProofs proofs.CachedProducerOnce proofs.CachedProducerDrop.
 Import ListNotations.
 Local Open Scope N_scope.
 
@@ -76,6 +76,18 @@ Theorem C27_not_droppable_again_before_next_open :
   droppable name (pre ++ (CDrop name, ROk, ev) :: mid) = false.
 Proof. exact droppable_after_drop. Qed.
 
+(* the same sentence per underlying store: the number of underlying Drop calls on a store u is
+   at most the number of OpenDB(name) calls (fresh, cached or failed) made while u is the store
+   behind name; stores never opened are never dropped.  "Per open" therefore means per OpenDB
+   CALL: a cached or failed OpenDB re-arms Drop, exactly as `c.notDropped[name] = true` at the
+   top of openDB does (Example drop_rearmed_by_failed_and_cached_open in proofs). *)
+Theorem C27_drops_per_store_at_most_open_calls :
+  forall s0 ops, s0 = wrap \/ s0 = wrap_all -> forallb by_name_op ops = true ->
+  (forall n u, In (n, u) (uopens (snd (crun s0 ops))) ->
+     (ndrops u (snd (crun s0 ops)) <= opens_while n u (snd (crun s0 ops)))%nat) /\
+  (forall u, (forall n, ~ In (n, u) (uopens (snd (crun s0 ops)))) -> ndrops u (snd (crun s0 ops)) = 0%nat).
+Proof. exact drops_per_open_all_histories. Qed.
+
 (* no history at all (stale handles included) panics or blocks after the repair *)
 Theorem C27_never_panics :
   forall ops s s' tr, alive s -> crun s ops = (s', tr) ->
@@ -105,5 +117,6 @@ Print Assumptions C27_each_store_closed_at_most_once.
 Print Assumptions C27_over_close_touches_nothing.
 Print Assumptions C27_drop_reaches_underlying_iff_droppable.
 Print Assumptions C27_not_droppable_again_before_next_open.
+Print Assumptions C27_drops_per_store_at_most_open_calls.
 Print Assumptions C27_never_panics.
 Print Assumptions C27_both_constructors_initialise_all_maps.
